@@ -99,6 +99,120 @@ const char *tname<char16_t>() { return "char16_t"; }
 template <>
 const char *tname<char32_t>() { return "char32_t"; }
 
+
+// ------------------------------------------------------------------ one object, successive values in the same storage
+// A result may depend on the operands' current contents only.  The other stages build their operands afresh for every
+// case, so something remembered per object (keyed by address and length) would never be consulted twice.  Here one
+// ST::string / char_buffer object is overwritten in place with every value of a class (same length, so the storage does
+// not move) and every read is compared with what a freshly built object gave for that value in an earlier pass.
+static std::vector<std::string> reuse_values(unsigned cls)
+{
+    static const unsigned char R[6] = {'a', 'A', 'b', '[', '{', 0xC3};
+    std::vector<std::string> v;
+    auto all = [&](unsigned len, const std::string &pre, const std::string &suf) {
+        uint64_t n = vf::ipow(6, len);
+        for (uint64_t i = 0; i < n; ++i) {
+            std::string x;
+            uint64_t k = i;
+            for (unsigned j = 0; j < len; ++j, k /= 6) x += (char)R[k % 6];
+            v.push_back(pre + x + suf);
+        }
+    };
+    switch (cls) {
+    case 0: all(1, "", ""); break;
+    case 1: all(2, "", ""); break;
+    case 2: all(3, "", ""); break;
+    case 3: all(2, "0123456789abcdefg", ""); break;   // heap storage, difference late
+    default: all(2, "", "0123456789ABCDEFG"); break;  // heap storage, difference early
+    }
+    return v;
+}
+struct ReuseRes {
+    size_t h, hi, hs;
+    int r[24];
+};
+static ReuseRes reuse_reads(const ST::string &x, const ST::string &o)
+{
+    ReuseRes q;
+    q.h = OP(ST::hash()(x));
+    q.hi = OP(ST::hash_i()(x));
+    q.hs = OP(std::hash<ST::string>()(x));
+    int k = 0;
+    q.r[k++] = sgn(OP(x.compare(o)));
+    q.r[k++] = sgn(OP(o.compare(x)));
+    q.r[k++] = sgn(OP(x.compare_i(o)));
+    q.r[k++] = sgn(OP(o.compare_i(x)));
+    q.r[k++] = sgn(OP(x.compare(o, ST::case_insensitive)));
+    q.r[k++] = sgn(OP(x.compare(o.c_str())));
+    q.r[k++] = sgn(OP(o.compare(x.c_str())));
+    q.r[k++] = sgn(OP(x.compare_i(o.c_str())));
+    q.r[k++] = sgn(OP(x.compare_n(o, 2)));
+    q.r[k++] = sgn(OP(o.compare_n(x, 2)));
+    q.r[k++] = sgn(OP(x.compare_ni(o, 2)));
+    q.r[k++] = sgn(OP(x.compare_n(o.c_str(), 2)));
+    q.r[k++] = OP(x == o);
+    q.r[k++] = OP(o == x);
+    q.r[k++] = OP(x != o);
+    q.r[k++] = OP(x < o);
+    q.r[k++] = OP(o < x);
+    q.r[k++] = OP(x == o.c_str());
+    q.r[k++] = OP(ST::less_i()(x, o));
+    q.r[k++] = OP(ST::less_i()(o, x));
+    q.r[k++] = OP(ST::equal_i()(x, o));
+    q.r[k++] = OP(ST::equal_i()(o, x));
+    q.r[k++] = sgn(OP(x.compare(x)));
+    q.r[k++] = OP(x == x);
+    return q;
+}
+static const char *const REUSE_NAMES[24] = {"compare(string)", "compare(string) as argument", "compare_i(string)", "compare_i(string) as argument",
+    "compare(string,case_insensitive)", "compare(const char*)", "compare(const char*) as argument", "compare_i(const char*)", "compare_n(string,2)",
+    "compare_n(string,2) as argument", "compare_ni(string,2)", "compare_n(const char*,2)", "operator==", "operator== as argument", "operator!=",
+    "operator<", "operator< as argument", "operator==(const char*)", "less_i", "less_i as argument", "equal_i", "equal_i as argument",
+    "compare(self)", "operator==(self)"};
+static void reuse_case(Ctx &c, unsigned cls, unsigned oi, bool backwards)
+{
+    std::vector<std::string> vals = reuse_values(cls);
+    static const char *const OTHERS[5] = {"a", "Ab", "a[b", "0123456789abcdefgA{", "\xC3a0123456789ABCDEFG"};
+    ST::string o = ST::string::from_validated(OTHERS[oi], strlen(OTHERS[oi]));
+    std::vector<ReuseRes> want(vals.size());
+    for (size_t i = 0; i < vals.size(); ++i) {
+        ST::string f = ST::string::from_validated(vals[i].data(), vals[i].size());
+        want[i] = reuse_reads(f, o);
+    }
+    ST::string X = ST::string::from_validated(vals[0].data(), vals[0].size());
+    ST::char_buffer B(vals[0].data(), vals[0].size()), ob(OTHERS[oi], strlen(OTHERS[oi]));
+    const char *where = X.c_str();
+    for (size_t n = 0; n < vals.size(); ++n) {
+        size_t i = backwards ? vals.size() - 1 - n : n;
+        X.set_validated(vals[i].data(), vals[i].size());
+        if (X.c_str() == where) VF_COUNT("out:reuse:value-replaced-in-place");
+        where = X.c_str();
+        ReuseRes got = reuse_reads(X, o);
+        val();
+        auto bad = [&](const char *what) {
+            c.fail(strf("reused-object:%s:differs-from-fresh-object", what),
+                   strf("one ST::string object given %zu values of length %zu in turn; holding %s, %s against %s differs from the result for a freshly "
+                        "built string of the same value",
+                        vals.size(), vals[i].size(), show(vals[i]).c_str(), what, show(OTHERS[oi]).c_str()));
+        };
+        if (got.h != want[i].h) bad("hash");
+        if (got.hi != want[i].hi) bad("hash_i");
+        if (got.hs != want[i].hs) bad("std::hash");
+        for (int k = 0; k < 24; ++k)
+            if (got.r[k] != want[i].r[k]) bad(REUSE_NAMES[k]);
+        // the same for a char_buffer overwritten element by element
+        memcpy(B.data(), vals[i].data(), vals[i].size());
+        ST::char_buffer fb(vals[i].data(), vals[i].size());
+        int g1 = sgn(OP(B.compare(ob))), w1 = sgn(OP(fb.compare(ob))), g2 = OP(B == ob), w2 = OP(fb == ob), g3 = OP(B < ob), w3 = OP(fb < ob);
+        int g4 = sgn(OP(ob.compare(B))), w4 = sgn(OP(ob.compare(fb))), g5 = sgn(OP(B.compare(OTHERS[oi]))), w5 = sgn(OP(fb.compare(OTHERS[oi])));
+        val();
+        if (g1 != w1 || g2 != w2 || g3 != w3 || g4 != w4 || g5 != w5)
+            c.fail("reused-object:char_buffer.compare/==/<:differs-from-fresh-object",
+                   strf("one char_buffer overwritten in place; holding %s, comparison with %s differs from a fresh buffer", show(vals[i]).c_str(), show(OTHERS[oi]).c_str()));
+    }
+    c.nontrivial();
+}
+
 // ------------------------------------------------------------------ items
 template <class T>
 struct WItem {
@@ -1024,6 +1138,19 @@ static void build(vf::Plan &plan, const vf::Opts &o)
                        return show(r);
                    });
     }
+
+    // ---- one object, successive values in the same storage
+    plan.stage("reused-object: one ST::string / char_buffer overwritten in place with every value of {a,A,b,[,{,C3}^1..3 and two heap classes, "
+               "each read compared with a fresh object",
+               5 * 5 * 2,
+               [](uint64_t i, Ctx &c) {
+                   unsigned cls = (unsigned)vf::take(i, 5), oi = (unsigned)vf::take(i, 5);
+                   reuse_case(c, cls, oi, vf::take(i, 2) != 0);
+               },
+               [](uint64_t i) {
+                   unsigned cls = (unsigned)vf::take(i, 5), oi = (unsigned)vf::take(i, 5);
+                   return strf("value class %u, other operand %u, %s", cls, oi, vf::take(i, 2) ? "backwards" : "forwards");
+               });
 
     // ---- char: huge lengths; wide element types: pairs, triples, huge lengths
     {
